@@ -1939,6 +1939,9 @@ func (vm *VM) execAsync() error {
 		builtinsCopy[k] = v
 	}
 
+	// The body runs under the step limit this VM was given, not the default
+	maxSteps := vm.maxSteps
+
 	go func() {
 		defer close(future.Done)
 		defer func() {
@@ -1949,6 +1952,7 @@ func (vm *VM) execAsync() error {
 
 		// Create a new VM for the async execution
 		asyncVM := NewVM()
+		asyncVM.maxSteps = maxSteps
 		asyncVM.constants = constantsCopy
 		asyncVM.locals = localsCopy
 		asyncVM.globals = globalsCopy
